@@ -150,6 +150,16 @@ Proof. exact output_format_full. Qed.
 Theorem C17_output_format_absent : key_model key_output_format None = InForce fmt_html.
 Proof. exact output_format_absent. Qed.
 
+(* [dead_code] enabled (before fix: 90fe013 nothing read the key, dead code detection ran whatever the file said): full as a
+   key, `false` included; with the flags: an analysis named by --select runs, --skip-deadcode skips, else the file decides *)
+Theorem C17_dead_code_enabled : forall file,
+  spec_ok key_dead_code_enabled file (key_model key_dead_code_enabled file) = true.
+Proof. exact dead_code_enabled_full. Qed.
+
+Theorem C17_dead_code_enabled_precedence : forall select skip file,
+  dead_code_runs select skip file = dead_code_runs_spec select skip file.
+Proof. exact dead_code_runs_full. Qed.
+
 (* [dead_code] detect_after_return / _break / _continue / _raise / detect_unreachable_branches: a kind of finding is
    reported exactly when its switch is on (before fix: 5b73f6c the switches were echoed but never consulted) *)
 Theorem C17_dead_code_detect_switches : forall d findings, reported d findings = filter (switch_of d) findings.
@@ -246,6 +256,8 @@ Print Assumptions C17_clones_max_edit_distance_default.
 Print Assumptions C17_clones_max_edit_distance_zero_is_absent.
 Print Assumptions C17_output_format_partial.
 Print Assumptions C17_output_format_absent.
+Print Assumptions C17_dead_code_enabled.
+Print Assumptions C17_dead_code_enabled_precedence.
 Print Assumptions C17_dead_code_detect_switches.
 Print Assumptions C17_dead_code_detect_switches_iff.
 Print Assumptions C17_patterns_same_with_and_without_file.
